@@ -475,7 +475,7 @@ func c01chunkKey(c *Ctx, r *Result) {
 		}
 		n++
 		key := site.Common().Args[1]
-		ok, why := c01scaledKey(c, w, key)
+		ok, why := c01scaledKey(c, scope{fn: w, bind: map[ssa.Value]ssa.Value{}}, key, 0)
 		if !readerDivides {
 			ok = !ok
 			why = "reader does not divide: " + why
@@ -500,8 +500,13 @@ func c01chunkKey(c *Ctx, r *Result) {
 
 // c01scaledKey: key is a fresh slice whose every element store is coord[d] * chunkDims[d] with chunkDims loaded from
 // the DatasetWriter (or the coordinator) and coord from GetChunkCoordinate.
-func c01scaledKey(c *Ctx, fn *ssa.Function, key ssa.Value) (bool, string) {
+func c01scaledKey(c *Ctx, sc scope, key ssa.Value, depth int) (bool, string) {
+	key = sc.res(key)
 	if call, ok := key.(*ssa.Call); ok {
+		// a key-building helper: judge the slice it returns, with its parameters bound to the arguments
+		if rv, hs, isH := helperResult(sc, call); isH && depth < 3 && c.calleeName(call) != "writer.ChunkCoordinator.GetChunkCoordinate" {
+			return c01scaledKey(c, hs, rv, depth+1)
+		}
 		return false, "the key passed to the chunk index is the raw result of " + c.calleeName(call) + " (a chunk index, not an element offset)"
 	}
 	mk, ok := key.(*ssa.MakeSlice)
@@ -536,7 +541,7 @@ func c01scaledKey(c *Ctx, fn *ssa.Function, key ssa.Value) (bool, string) {
 				if !ok {
 					return false
 				}
-				call, ok := ia.X.(*ssa.Call)
+				call, ok := sc.res(ia.X).(*ssa.Call)
 				return ok && c.calleeName(call) == "writer.ChunkCoordinator.GetChunkCoordinate" && ia.Index != nil
 			}
 			fromDims := func(v ssa.Value) (bool, ssa.Value) {
@@ -548,7 +553,7 @@ func c01scaledKey(c *Ctx, fn *ssa.Function, key ssa.Value) (bool, string) {
 				if !ok {
 					return false, nil
 				}
-				l2, ok := isLoad(ia.X)
+				l2, ok := isLoad(sc.res(ia.X))
 				if !ok {
 					return false, nil
 				}
@@ -666,6 +671,9 @@ func c01sizeDiscipline(c *Ctx, r *Result) {
 			switch n {
 			case "writer.FileWriter.WriteAtAddress":
 				data = site.Common().Args[1]
+				if valueReadsField(site.Common().Args[2], "hdf5.DatasetWriter.layoutBTreeOffset", 0) {
+					continue // the index-address patch (C01.5), not element bytes
+				}
 			case "hdf5.DatasetWriter.writeChunkedData":
 				data = site.Common().Args[1]
 			default:
@@ -856,11 +864,24 @@ func c01indexPatch(c *Ctx, r *Result) {
 	// a guard that may skip the patch: the condition reads nothing but layoutBTreeOffset
 	pureGuard := func(from, to *ssa.BasicBlock) bool {
 		ifi, ok := from.Instrs[len(from.Instrs)-1].(*ssa.If)
-		if !ok || from.Succs[1] != to {
+		if !ok {
 			return false
 		}
 		bo, ok := ifi.Cond.(*ssa.BinOp)
-		if !ok || bo.Op != token.GTR {
+		if !ok {
+			return false
+		}
+		// the edge on which the (unsigned) offset is known to be zero: `off > 0`/`off != 0` false, `off == 0`/`off <= 0` true
+		var zeroEdge *ssa.BasicBlock
+		switch bo.Op {
+		case token.GTR, token.NEQ:
+			zeroEdge = from.Succs[1]
+		case token.EQL, token.LEQ:
+			zeroEdge = from.Succs[0]
+		default:
+			return false
+		}
+		if zeroEdge != to {
 			return false
 		}
 		k, isK := constInt(bo.Y)
@@ -886,27 +907,23 @@ func c01indexPatch(c *Ctx, r *Result) {
 	}
 	// the patched bytes carry the address WriteToFile returned
 	patched := 0
-	instrs(fn, func(in ssa.Instruction) {
-		call, ok := in.(*ssa.Call)
-		if !ok {
-			return
-		}
-		name := c.calleeName(call)
-		if !strings.HasSuffix(name, "PutUint64") && !strings.HasSuffix(name, "PutUint32") {
-			return
-		}
-		args := call.Call.Args
-		v := args[len(args)-1]
-		for {
-			if cv, ok := v.(*ssa.Convert); ok {
-				v = cv.X
-				continue
+	for _, sc := range scopesOf(fn, btreeAddr) {
+		sc := sc
+		instrs(sc.fn, func(in ssa.Instruction) {
+			call, ok := in.(*ssa.Call)
+			if !ok {
+				return
 			}
-			break
-		}
-		patched++
-		r.Check(v == btreeAddr, "C01.5", c.Name(fn)+"#patched-value-is-new-index-address", c.InstrPos(in), "the bytes patched into the layout message encode the address returned by WriteToFile")
-	})
+			name := c.calleeName(call)
+			if !strings.HasSuffix(name, "PutUint64") && !strings.HasSuffix(name, "PutUint32") {
+				return
+			}
+			args := call.Call.Args
+			v := sc.res(args[len(args)-1])
+			patched++
+			r.Check(stripConv(v) == btreeAddr, "C01.5", c.Name(sc.fn)+"#patched-value-is-new-index-address", c.InstrPos(in), "the bytes patched into the layout message encode the address returned by WriteToFile")
+		})
+	}
 	if patched == 0 {
 		r.Errorf("C01.5: no PutUint64/PutUint32 of the index address found")
 	}
